@@ -189,8 +189,10 @@ def short_alphabet(oip):
 
 
 # ---------------------------------------------------------------- IndexInv on the real object (search oracle)
-def index_inv(R):
-    """`IndexInv` of Props/C11.lean evaluated on the real SyncState.  Returns the list of failing clause names."""
+def index_inv(R, exempt=None):
+    """`IndexInv` of Props/C11.lean evaluated on the real SyncState.  Returns the list of failing clause names.
+    `exempt` = (entry, side) just forgotten by forget_oid: theorem `forget_inv` exempts it from the found-under-id clauses
+    and demands that it is not pending."""
     st = R.state
     bad = []
     for s in SIDES:
@@ -214,17 +216,50 @@ def index_inv(R):
     cs = list(st._changeset_storage)
     for e in R.reg:
         for s in SIDES:
+            if exempt is not None and e is exempt[0] and s == exempt[1]:
+                continue
             o, p = e[s]._oid, e[s]._path
             if o is not None and st._oids[s].get(o) is not e:
                 bad.append("entry_found_by_id")
             if p and o is not None and st._paths[s].get(p, {}).get(o) is not e:
                 bad.append("entry_found_by_path")
-        if any(e[s]._changed and e[s]._oid for s in SIDES) and not any(e is x for x in cs):
+        if exempt is not None and e is exempt[0]:
+            if any(e is x for x in cs):
+                bad.append("forgotten_entry_pending")
+            if any(x is e for b in st._paths[exempt[1]].values() for x in b.values()) or any(x is e for x in st._oids[exempt[1]].values()):
+                bad.append("forgotten_entry_has_slot")
+        elif any(e[s]._changed and e[s]._oid for s in SIDES) and not any(e is x for x in cs):
             bad.append("pending_complete")
     return sorted(set(bad))
 
 
-SLOT_SOUND = {"oid_key_none", "oid_slot_carries_id", "path_slot_carries_path", "path_slot_carries_id", "path_slot_has_id_slot"}
+def eval_sequence(R, cfg, ops, events_only=False):
+    """replay `ops` on a fresh real state and evaluate the theorems' statement after the last operation
+    (`step_inv`/`run_inv`; `forget_inv` + `forget_total` when the last operation is a forget_oid).  None = not applicable."""
+    R.reset(cfg)
+    bad = []
+    for i, op in enumerate(ops):
+        exempt = None
+        if op[0] == "FG":
+            if i != len(ops) - 1:
+                return None
+            tgt = R.state._oids[op[1]].get(op[2])
+            exempt = (tgt, op[1]) if tgt is not None else None
+        try:
+            status, _ = R.apply(op)
+        except Exception:  # a shrunk sequence may reference entries that no longer exist
+            return None
+        if status == "Recursion":
+            return None
+        if i == len(ops) - 1:
+            bad = index_inv(R, exempt)
+            if op[0] == "FG" and status != "ok":
+                bad.append("forget_oid_raised_" + status)
+            if events_only and status == "ok" and not bad and not any(o[0] == "U" and o[3] == "" for o in ops):
+                ra = repo_assert(R)
+                if ra:
+                    bad = [ra]
+    return bad
 
 
 def repo_assert(R):
@@ -293,24 +328,28 @@ def U(side, ot, oid, path, prior=None, ex="T", h=None):
 
 
 C0 = (False, False, True, True, 0, 0)
-FINDINGS = {
+# id -> (flavour, operations, what to look at after the last operation); used for `open:` and for `fixed:` entries alike
+RECIPES = {
     "kids-mutual-recursion": (C0, [U(0, "d", "e", "/a"), U(0, "d", "f", "/a/b"), U(0, "d", "e", "/a/b/c")], "recursion"),
-    "changed-hook-mutual-recursion": (C0, [U(0, "f", "i1", "/a"), ("C", 0, 1, 1), ("O", 0, 0, None), ("C", 0, 0, None)], "recursion"),
     "path-without-id": (C0, [U(0, "f", "i1", "/a"), ("O", 0, 0, None)], "path_without_id"),
+    "pending-flag-without-id": (C0, [U(0, "f", "i1", "/a"), ("C", 0, 1, 5), ("O", 0, 0, None)], "pending_no_id"),
+    "reload-indexes-absent-side": (C0, [U(0, "f", "i1", "/a"), ("RL",), ("O", 0, 1, "r1")], "stale_none_slot"),
+    # repaired by fix B (direct `_changed = 0` write)
+    "changed-hook-mutual-recursion": (C0, [U(0, "f", "i1", "/a"), ("C", 0, 1, 1), ("O", 0, 0, None), ("C", 0, 0, None)], "recursion"),
     "pending-without-flag": (C0, [U(0, "f", "i1", "/a"), ("MK", 0, 1), ("C", 0, 0, None)], "pending_unflagged"),
+    # repaired by fix A (forget_oid)
     "pending-holds-forgotten": (C0, [U(0, "f", "i1", "/a"), ("FG", 0, "i1")], "pending_forgotten"),
     "forget-leaves-empty-bucket": (C0, [U(0, "f", "i1", "/a"), ("FG", 0, "i1")], "empty_bucket"),
     "forget-pathless-keyerror": (C0, [U(0, "f", "i1", None), ("FG", 0, "i1")], "keyerror"),
-    "reload-indexes-absent-side": (C0, [U(0, "f", "i1", "/a"), ("RL",), ("O", 0, 1, "r1")], "stale_none_slot"),
+    # repaired by f72ed8c
+    "update-kids-self-recursion": (C0, [U(0, "d", "o", "/a"), U(0, "d", "o", "/a/b")], "not_at_a_b"),
 }
-FIXED = {
-    "update-kids-self-recursion": (C0, [U(0, "d", "o", "/a"), U(0, "d", "o", "/a/b")]),
-}
+FINDINGS = RECIPES
 
 
 def replay_finding(R, ident):
-    """True if the listed defect still shows on the real code at exactly this input"""
-    cfg, ops, kind = FINDINGS[ident]
+    """True if the listed defect shows on the real code at exactly this input"""
+    cfg, ops, kind = RECIPES[ident]
     R.reset(cfg)
     statuses = [R.apply(op)[0] for op in ops]
     st = R.state
@@ -318,6 +357,9 @@ def replay_finding(R, ident):
         return statuses[-1] == "Recursion"
     if kind == "keyerror":
         return statuses[-1] == "Key"
+    if kind == "not_at_a_b":
+        e = st.lookup_oid(0, "o") if statuses[-1] == "ok" else None
+        return e is None or e[0]._path != "/a/b"
     if statuses[-1] != "ok":
         return False
     e = R.reg[0]
@@ -325,6 +367,8 @@ def replay_finding(R, ident):
         return bool(e[0]._path) and e[0]._oid is None
     if kind == "pending_unflagged":
         return e in st._changeset_storage and not e[0]._changed and not e[1]._changed
+    if kind == "pending_no_id":
+        return e in st._changeset_storage and not any(e[s]._changed and e[s]._oid for s in SIDES)
     if kind == "pending_forgotten":
         return e in st._changeset_storage and not any(e is x for s in SIDES for x in st._oids[s].values())
     if kind == "empty_bucket":
@@ -334,28 +378,17 @@ def replay_finding(R, ident):
     raise HarnessError(kind)
 
 
-def replay_fixed(R, ident):
-    """True if the repaired defect is back"""
-    cfg, ops = FIXED[ident]
-    R.reset(cfg)
-    statuses = [R.apply(op)[0] for op in ops]
-    if statuses[-1] != "ok":
-        return True
-    e = R.state.lookup_oid(0, "o")
-    return e is None or e[0]._path != "/a/b"
-
-
 def oracle_search(R, seed, tier, opens):
-    """IndexInv + assert_index_is_correct (on event-only sequences) on the implementation; first failing sequence that
-    is not a listed finding.  The statement checked is exactly the theorem's: sequences without forget/reload, every
-    outcome except RecursionError."""
+    """the theorems' statements on the implementation: `IndexInv` after every operation of sequences without forget/reload
+    (every outcome except RecursionError), `forget_inv`/`forget_total` after a final forget_oid, and the repo's own
+    assert_index_is_correct on event-only runs with non-empty ids.  First failing sequence that is not a listed finding."""
     rng = rng_for(seed, "c11search")
-    known_seqs = {json.dumps([op_line(o) for o in FINDINGS[i][1]]) for i in opens if i in FINDINGS}
+    known_seqs = {json.dumps([op_line(o) for o in RECIPES[i][1]]) for i in opens if i in RECIPES}
     budget = 4000 if tier == "quick" else 40000
     for q in range(budget):
         cfg = rng.choice(FLAVOURS)
         events_only = q % 3 == 0
-        with_forget = q % 3 == 1          # theorem forget_sound: slot soundness right after a forget_oid
+        with_forget = q % 3 == 1
         kinds = EVENT_KINDS if events_only else CORE_KINDS
         R.reset(cfg)
         ops = []
@@ -364,12 +397,16 @@ def oracle_search(R, seed, tier, opens):
             last_forget = with_forget and j == n - 1
             op = gen_op(rng, R, ["FG"] if last_forget else kinds)
             ops.append(op)
+            exempt = None
+            if op[0] == "FG":
+                tgt = R.state._oids[op[1]].get(op[2])
+                exempt = (tgt, op[1]) if tgt is not None else None
             status, _ = R.apply(op)
             if status == "Recursion":
                 break
-            bad = index_inv(R)
-            if last_forget:
-                bad = [b for b in bad if b in SLOT_SOUND]
+            bad = index_inv(R, exempt)
+            if op[0] == "FG" and status != "ok":
+                bad.append("forget_oid_raised_" + status)
             # the repo's own assert_index_is_correct additionally demands that an entry flagged on a side whose id is the
             # empty string is pending; that is not part of IndexInv (truthy ids only), so it is consulted only on runs
             # whose ids are all non-empty
@@ -378,40 +415,30 @@ def oracle_search(R, seed, tier, opens):
                 if ra:
                     bad = [ra]
             if bad:
-                ops = shrink(R, cfg, ops, bad[0])
+                ops = shrink(R, cfg, ops, bad[0], events_only)
                 if json.dumps([op_line(o) for o in ops]) in known_seqs:
                     break
                 return {"config": {"oid_is_path": cfg[:2], "case_sensitive": cfg[2:4], "prioritize_mode": cfg[4], "info_path_mode": cfg[5]},
                         "ops": [op_line(o) for o in ops], "ops_readable": [repr(o) for o in ops], "failing_clauses": bad,
-                        "how_to_replay": "harness/c11lib.py: R = Real(); R.reset(cfg); [R.apply(op) for op in ops]; c11_state.index_inv(R)"}
+                        "how_to_replay": "harness/c11_state.py: eval_sequence(Real(), cfg, ops)"}
     return None
 
 
-def fails_with(R, cfg, ops, clause):
-    if ops and ops[-1][0] == "FG" and clause not in SLOT_SOUND:
+def fails_with(R, cfg, ops, clause, events_only):
+    bad = eval_sequence(R, cfg, ops, events_only)
+    if not bad:
         return False
-    if any(o[0] == "FG" for o in ops[:-1]):
-        return False
-    R.reset(cfg)
-    for op in ops:
-        try:
-            status, _ = R.apply(op)
-        except Exception:  # a shrunk sequence may reference entries that no longer exist
-            return False
-        if status == "Recursion":
-            return False
-    bad = index_inv(R)
     if clause.startswith("assert_index"):
-        return not bad and not any(o[0] != "U" and o[0] not in ("T", "K", "LP", "LO") for o in ops) and repo_assert(R) is not None
+        return bad[0].startswith("assert_index")
     return clause in bad
 
 
-def shrink(R, cfg, ops, clause):
+def shrink(R, cfg, ops, clause, events_only=False):
     ops = list(ops)
     i = 0
     while i < len(ops):
         cand = ops[:i] + ops[i + 1:]
-        if cand and fails_with(R, cfg, cand, clause):
+        if cand and fails_with(R, cfg, cand, clause, events_only):
             ops = cand
         else:
             i += 1
@@ -426,7 +453,7 @@ def run(res, tier, seed, proof_broken, replay):
     # 2. known findings / fixed entries on the real code
     stale = []
     for ident, what in opens.items():
-        if ident not in FINDINGS:
+        if ident not in RECIPES:
             res.notes.append("known finding %s has no replay recipe" % ident)
             continue
         if replay_finding(R, ident):
@@ -434,8 +461,11 @@ def run(res, tier, seed, proof_broken, replay):
         else:
             stale.append(ident)
     for ident, what in fixed.items():
-        if ident in FIXED and replay_fixed(R, ident):
-            cfg, ops = FIXED[ident]
+        if ident not in RECIPES:
+            res.notes.append("fixed entry %s has no replay recipe" % ident)
+            continue
+        if replay_finding(R, ident):
+            cfg, ops, _k = RECIPES[ident]
             res.violation({"property": PID, "kind": "regression of fixed finding", "id": ident, "what": what,
                            "ops": [op_line(o) for o in ops], "ops_readable": [repr(o) for o in ops]})
     # 3. correspondence (flushed to the Lean driver in batches to bound memory)
